@@ -8,10 +8,12 @@ P_q     == [dvs |-> {"d0"}, ces |-> {"c3"}]
 P_auto  == [dvs |-> {"d3"}, ces |-> {"c5"}]
 P_auto2 == [dvs |-> {"d4", "d1"}, ces |-> {"c6", "c7"}]
 P_auto3 == [dvs |-> {"d3"}, ces |-> {"c5", "c8"}]
+P_chain == [dvs |-> {"d1"}, ces |-> {"c7", "c9"}]
+ProfChain == {P_chain}
 ProfAuto == {P_auto, P_auto3}
 ProfPre == {P_pre, P_q, P_auto2, P_auto3}
 P_all   == [dvs |-> DV, ces |-> CE]
-ProfSmall == {P_lazy, P_comp, P_pre, P_q, P_auto, P_auto2, P_auto3}
+ProfSmall == {P_lazy, P_comp, P_pre, P_q, P_auto, P_auto2, P_auto3, P_chain}
 ProfAll == {P_all}
 NoDev == {}
 Dev_CopyBumpOnlyToSrcStage == {"CopyBumpOnlyToSrcStage"}
@@ -25,6 +27,7 @@ Dev_AutoEntryNotInvalidatedByUpd == {"AutoEntryNotInvalidatedByUpd"}
 Dev_NoVersionBump == {"NoVersionBump"}
 Dev_ZWeightsDynamics == {"ZWeightsDynamics"}
 Dev_ShallowCopy == {"ShallowCopy"}
+Dev_SkipUnflagged == {"SkipUnflagged"}
 
 P_none  == [dvs |-> {}, ces |-> {}]
 ProfNone == {P_none}
